@@ -509,6 +509,24 @@ impl Gen<'_> {
             self.ecall_number_in_overwritten_local(ctx);
             return;
         }
+        if self.r.chance(1, 16) {
+            // a buffer in the frame is handed to a service that fills it (ReadString): what the
+            // slot held before says nothing about what is loaded from it afterwards
+            let x = *self.r.pick(&[10i64, 93]);
+            self.emit(format!("addi {0}, {0}, -16", self.reg("sp")));
+            self.emit(format!("li {}, {x}", self.reg("t0")));
+            self.emit(format!("sw {}, 0({})", self.reg("t0"), self.reg("sp")));
+            self.emit(format!("mv {}, {}", self.reg("a0"), self.reg("sp")));
+            self.emit(format!("li {}, 8", self.reg("a1")));
+            self.emit(format!("li {}, 8", self.reg("a7")));
+            self.emit("ecall".into());
+            self.emit(format!("lw {}, 0({})", self.reg("a7"), self.reg("sp")));
+            self.emit("ecall".into());
+            self.emit(format!("addi {0}, {0}, 16", self.reg("sp")));
+            ctx.defined.retain(|r| r.starts_with('s') || *r == "zero");
+            ctx.defined.push("a0");
+            return;
+        }
         if self.r.chance(1, 14) {
             // the number of the service makes a round trip through the save area that uscratch
             // points to (two slots): the value analysis follows it through its memory facts
